@@ -195,7 +195,32 @@ def r10_7(ctx):
            "tendril utf8_decode IncompleteUtf8::try_complete_offsets")
 
 
+def r10_8(ctx):
+    """TendrilSink::read_from: the stream is finished only when a read answered Ok(0) (a short read is not the end of the input),
+    every Ok(n > 0) read is handed to process(), and an interrupted read is retried"""
+    key, pcs = nfq.cells(ctx, AREA, "stream::read_from")
+    bad = None
+    fin = 0
+    for pc in nfq.feasible(pcs):
+        t = nfq.texts(pc)
+        g = pc["guards"]
+        eof = any(v and re.search(r"\.read\(.*\) matches Ok\(0\)(#\d+)?$", k) for k, v in g.items())
+        if any(x == "self.finish()" or x.startswith("self.finish(") for x in t):
+            fin += 1
+            if not eof:
+                bad = "read_from finishes the sink on a path where the read did not answer Ok(0) (%s): a reader that returns short reads has its input cut off" % [k[-40:] for k, v in g.items() if v][:2]
+        got = any(v and re.search(r"\.read\(.*\) matches Ok\(_\)(#\d+)?$", k) for k, v in g.items()) and not eof
+        if got and not any(x.startswith("self.process(") for x in t):
+            bad = "a successful non-empty read is not handed to process()"
+    ctx.ob("R10.8", "read_from-finishes-only-at-eof", bad is None and fin >= 1, bad or "finish() only after Ok(0); every other Ok(n) is processed", "tendril stream TendrilSink::read_from")
+
+
 def run(ctx):
+    ctx.rule("R10.8", "read_from finishes only at Ok(0); the byte-order mark is dropped only as the first character of the stream (shared with R03.4)")
+    ctx.guard("R10.8", "read_from", lambda: r10_8(ctx))
+    from . import tokrules as _tr
+    for which in ("html", "xml"):
+        ctx.guard("R10.8", "bom/" + which, lambda which=which: _tr.bom_rule(ctx, "R10.8", which))
     ctx.rule("R10.7", "completing a split sequence: input advances by (new stored length - old stored length); a malformed completion keeps exactly error_len bytes")
     ctx.guard("R10.7", "completion", lambda: r10_7(ctx))
     if ctx.config == "all-features":
